@@ -23,6 +23,16 @@ ASSUMPTIONS.append(
     "the frame as it is at the time of that call: the references are computed from a deep copy that "
     "never went through the first call; every judged call runs on its own copy of the history, with "
     "no other call in between")
+ASSUMPTIONS.append(
+    "levels that vanish with the removed rows: the frames also hold an ORDERED pandas categorical `ro` "
+    "and an unordered one `ru` (declared categories not in sorted order; a rare level in one or two "
+    "rows; now and then a declared category that is never observed), used as plain variable, inside "
+    "an interaction, as C() / T() argument and as grouping factor; and for a share of the cases one "
+    "level of a categorical column the formula uses (any of f, g, h, cu, co, ro, ru) is made to occur "
+    "ONLY in incomplete rows: another used numeric variable (or the response) is missing in every row "
+    "that carries the level.  The judge is the same relation as everywhere (drop = the run on the frame "
+    "from which the incomplete rows were removed by boolean selection, where pandas keeps the declared "
+    "categories); a drop that succeeds where the filtered run is refused is a failure as well")
 TRUSTED = ["pandas isna / boolean row selection (modelled by incompleteRows / keepRows)"]
 
 TERMS = ["x", "z", "f", "g", "f:x", "np.exp(z / 4)", "I(x + z)", "{z * 2}", "C(f)", "center(x)",
@@ -37,6 +47,14 @@ NUM = ["y", "x", "z", "w z", "unused", "ni", "bl"]
 NULLABLE = {"ni": "Int64", "bl": "boolean"}
 FILL = {c: (False if c == "bl" else 0 if c == "ni" else 0.0) for c in NUM}
 CAT = ["f", "g", "h"]
+# categorical columns with DECLARED categories in which a level may vanish with the removed rows
+RO_LEVELS = ["q2", "q0", "q3", "q1"]      # ordered categorical, declared order (not sorted)
+RU_LEVELS = ["s1", "s3", "s0", "s2"]      # unordered categorical, declared order (not sorted)
+RARE_TERMS = ["ro", "ru", "C(ro)", "C(ru)", "ro:x", "ru:z", "T(ru, 's1')", "C(ro):z", "x:ro", "S(ro)"]
+RARE_POINTWISE = ["ro", "ru", "ro:x", "ru:z", "C(ru):z", "x:ro"]
+RARE_GROUPS = ["(1 | ro)", "(x | ru)", "(z | C(ro))", "(0 + x | ro)", "(1 | ru:h)", "(f | ro)",
+               "(1 | C(ru))", "(ro | h)", "(0 + ru | g)"]
+LEVELLED = ["f", "g", "h", "cu", "co", "ro", "ru"]
 CORPUS = ["y ~ x + (z | g)", "y ~ fun(x, k=z)", "y ~ `w z` + f", "yc ~ x", "y ~ f:x + (x | h)",
           "y ~ I(x + z) + C(f)"]
 
@@ -52,6 +70,70 @@ def make_frame(r):
     df["ni"] = pd.array([r.randrange(-3, 8) for _ in range(len(df))], dtype="Int64")
     df["bl"] = pd.array([r.random() < 0.5 for _ in range(len(df))], dtype="boolean")
     return df
+
+
+def add_rare_columns(rr, df):
+    """`ro` (ordered) / `ru` (unordered) pandas categoricals with declared categories: two or three
+    common levels, one rare level in one or two rows, now and then a declared level never observed.
+    Own PRNG stream: the other columns are what they were."""
+    n = len(df)
+    for name, levels, ordered in (("ro", RO_LEVELS, True), ("ru", RU_LEVELS, False)):
+        lv = list(levels)
+        rr.shuffle(lv)
+        never = lv.pop() if rr.random() < 0.2 else None          # declared, never observed
+        rare, common = lv[0], lv[1:]
+        xs = [rr.choice(common) for _ in range(n)]
+        for i, l in enumerate(common):
+            xs[i % n] = l
+        rr.shuffle(xs)
+        for i in rr.sample(range(n), rr.randrange(1, 3)):
+            xs[i] = rare
+        df[name] = pd.Categorical(xs, categories=levels, ordered=ordered)
+    return df
+
+
+def set_missing(out, c, rows):
+    """writes missing values into column `c` of `out` at the positions `rows` (in place)"""
+    j = out.columns.get_loc(c)
+    if c in NULLABLE:
+        vals = out[c].tolist()
+        for i in rows:
+            vals[i] = pd.NA
+        out[c] = pd.array(vals, dtype=NULLABLE[c])
+    else:
+        if not pd.api.types.is_float_dtype(out[c]):
+            out[c] = out[c].astype(float)
+        out.iloc[list(rows), j] = np.nan
+    return out
+
+
+def tie_level(rr, data, formula):
+    """-> (frame, [numeric column] or [], description): one level of a categorical column the formula
+    uses is made to occur only in incomplete rows, by making another used numeric variable missing in
+    every row that carries it (and, half of the time, in one more row)"""
+    used = formula_columns(formula, data)
+    cats = [c for c in used if c in LEVELLED]
+    nums = [c for c in used if c in NUM and c != "unused"]
+    if not cats or not nums:
+        return data, [], None
+    c = rr.choice(cats)
+    v = rr.choice(nums)
+    counts = {}
+    for x in data[c].tolist():
+        if not pd.isna(x):
+            counts[x] = counts.get(x, 0) + 1
+    if len(counts) < 2:
+        return data, [], None
+    # the rarest level most of the time (few rows lost), any level otherwise
+    levels = sorted(counts, key=lambda l: (counts[l], str(l)))
+    level = levels[0] if rr.random() < 0.7 else rr.choice(levels)
+    rows = [i for i, x in enumerate(data[c].tolist()) if x == level]
+    if len(rows) >= len(data) - 1:
+        return data, [], None
+    if rr.random() < 0.5:
+        rows = sorted(set(rows + [rr.randrange(len(data))]))
+    out = set_missing(data.copy(), v, rows)
+    return out, [v], {"level": str(level), "of": c, "only_in_rows_where_missing": v}
 
 
 def punch(r, df, cols, frac=0.2):
@@ -176,6 +258,10 @@ def explore(tier, seed, res=None, replay=None):
                 "used and unused columns x the three policies + invalid policies; for a share of the "
                 "cases also as a history: the frame object evaluated once, edited in place (missing "
                 "values written / filled in / moved, row count unchanged), evaluated again; "
+                "frames hold ordered / unordered categoricals with declared categories and a rare "
+                "level (plain, in interactions, in C()/T()/S(), as grouping factor), and in a share of "
+                "the cases one level of a used categorical occurs only in rows that are incomplete "
+                "because of another used variable; "
                 "non-trivial = a case with at least one incomplete used row; distinct by (formula, "
                 "pattern, plain / history)")
     n_cases = 300 if tier == "quick" else 8000
@@ -199,6 +285,16 @@ def explore(tier, seed, res=None, replay=None):
             if r.random() < 0.35:
                 ts.append(r.choice(GROUPS))
             formula = r.choice(["y", "y", "yc", "fun(y)"]) + " ~ " + " + ".join(ts)
+        # levels that vanish with the removed rows (own PRNG stream; the draws above are unchanged)
+        rr = rng_for(seed, "c09", path, "rare")
+        df = add_rare_columns(rr, df)
+        rf = rng_for(seed, "c09", path, "rare-formula")
+        if f is None and rf.random() < 0.4:
+            extra = [rf.choice(RARE_POINTWISE if pointwise else RARE_TERMS)]
+            if rf.random() < 0.4:
+                extra = [rf.choice(RARE_GROUPS)] if rf.random() < 0.6 else extra + [rf.choice(RARE_GROUPS)]
+            lhs, rhs = formula.split(" ~ ")
+            formula = lhs + " ~ " + " + ".join(rhs.split(" + ") + extra)
         # missingness: numeric columns (any policy); categorical ones only when not testing pass
         cols = r.sample(NUM, r.randrange(0, 4))
         if not pointwise and r.random() < 0.5:
@@ -206,8 +302,16 @@ def explore(tier, seed, res=None, replay=None):
         # now and then most rows are incomplete (more rows dropped than kept)
         heavy = r.random() < 0.15
         data = punch(r, df.reset_index(drop=True), cols, 1.6 if heavy else 0.2) if cols else df
+        tied = None
+        if rr.random() < 0.5:
+            data, more, tied = tie_level(rr, data, formula)
+            cols = cols + [c for c in more if c not in cols]
         data = designs.scramble_index(r, data)       # incl. non-unique row labels
-        jobs.append((formula, path, data, pointwise, cols, None))
+        if tied:
+            res.count("a level of a used categorical occurs only in incomplete rows")
+            res.count("... of an " + ("ordered" if tied["of"] in ("co", "ro") else "unordered / string")
+                      + " column")
+        jobs.append((formula, path, data, pointwise, cols, None, tied))
         # history twin: the same frame object evaluated, edited in place, evaluated again
         rh = rng_for(seed, "c09", path, "history")
         u_hist = rh.random()
@@ -220,15 +324,17 @@ def explore(tier, seed, res=None, replay=None):
                     "first": (first_formula, rh.choice(["drop", "drop", "error", "pass"]))}
             now = apply_edits(data.copy(deep=True), edits)      # the frame at the time of the 2nd call
             jobs.append((formula, path, now, pointwise,
-                         cols + [e[1] for e in edits if e[0] != "fill" and e[1] not in cols], hist))
+                         cols + [e[1] for e in edits if e[0] != "fill" and e[1] not in cols], hist, None))
     rows_req = [{"op": "c09_rows", "formula": f, "frame": designs.frame_json(d), "action": "drop"}
-                for f, _, d, _, _, _ in jobs]
+                for f, _, d, _, _, _, _ in jobs]
     rows_out = ask(rows_req)
     spec_reqs, owners = [], []
     pipe_reqs, pipe_owners = [], []
-    for (formula, path, data, pointwise, cols, hist), ro in zip(jobs, rows_out):
+    for (formula, path, data, pointwise, cols, hist, tied), ro in zip(jobs, rows_out):
         res.evaluations += 1
         case = {"formula": formula, "seed_path": path, "missing_in": cols}
+        if tied:
+            case["level_only_in_incomplete_rows"] = tied
         if hist is None:
             def first(action, formula=formula, data=data):
                 return run(formula, data, action)
